@@ -230,13 +230,90 @@ where StandardNormal: Distribution<F>, Exp1: Distribution<F>, Open01: Distributi
     }
 }
 
+/// C01 (composition layer): derived distributions are the documented functions of the crate's own primitives.
+/// Each event pairs the derived sampler with the documented construction evaluated with PUBLIC primitives on a
+/// clone of the stream; TraceCompose requires equal word consumption (else: another construction, not judged) and
+/// agreement within a few ordinals.
+fn c01<F: Fc + Default>(seed: u64, nrand: usize, out: &mut Vec<String>)
+where StandardNormal: Distribution<F>, Exp1: Distribution<F>, Open01: Distribution<F>, OpenClosed01: Distribution<F>, StandardUniform: Distribution<F> {
+    let mut rnd = Sm(seed);
+    let f = |x: f64| F::of(x);
+    let mut push = |fam: &str, params: Vec<F>, got: Result<F, String>, wa: u64, refv: Result<F, String>, wb: u64, tag: &Value, out: &mut Vec<String>| {
+        match (got, refv) {
+            (Ok(g), Ok(r)) => { let finite = g.is_finite() && r.is_finite();
+                out.push(json!({"op": "wire", "fam": fam, "ft": F::NAME, "res": "Ok", "wa": wa, "wb": wb, "finite": finite, "same_class": class_of(g) == class_of(r),
+                    "got": if finite { ord_limbs(g) } else { vec![0, 0, 0] }, "ref": if finite { ord_limbs(r) } else { vec![0, 0, 0] },
+                    "show": [format!("{:e}", g), format!("{:e}", r)], "params": params.iter().map(|x| format!("{:e}", x)).collect::<Vec<_>>(), "stream": tag}).to_string()); }
+            (g, r) => out.push(json!({"op": "wire", "fam": fam, "ft": F::NAME, "res": format!("Panic: {:?} / {:?}", g.err(), r.err()), "wa": wa, "wb": wb, "finite": false, "same_class": false,
+                    "got": [0, 0, 0], "ref": [0, 0, 0], "params": params.iter().map(|x| format!("{:e}", x)).collect::<Vec<_>>(), "stream": tag}).to_string()),
+        }
+    };
+    for (rng0, tag) in streams(&mut rnd, nrand) {
+        // ChiSquared(k): N^2 for k = 1, Gamma(k/2, 2) otherwise
+        for k in [f(1.0), f(0.5), f(2.0), f(3.0), f(7.5), f(100.0)] {
+            let Ok(d) = ChiSquared::new(k) else { continue };
+            let (mut ra, mut rb) = (rng0.clone(), rng0.clone());
+            let got = guarded(|| d.sample(&mut ra));
+            let refv = if k == F::one() { guarded(|| { let n: F = StandardNormal.sample(&mut rb); n * n }) } else { guarded(|| Gamma::new(f(0.5) * k, f(2.0)).unwrap().sample(&mut rb)) };
+            push("ChiSquared", vec![k], got, ra.words(), refv, rb.words(), &tag, out);
+        }
+        // StudentT(nu) = N * sqrt(nu / ChiSquared(nu))
+        for nu in [f(1.0), f(0.5), f(2.0), f(5.0), f(30.0)] {
+            let Ok(d) = StudentT::new(nu) else { continue };
+            let (mut ra, mut rb) = (rng0.clone(), rng0.clone());
+            let got = guarded(|| d.sample(&mut ra));
+            let refv = guarded(|| { let n: F = StandardNormal.sample(&mut rb); let c: F = ChiSquared::new(nu).unwrap().sample(&mut rb); n * (nu / c).sqrt() });
+            push("StudentT", vec![nu], got, ra.words(), refv, rb.words(), &tag, out);
+        }
+        // FisherF(m, n) = (ChiSquared(m) / m) / (ChiSquared(n) / n)
+        for (m, n) in [(f(1.0), f(1.0)), (f(2.0), f(7.0)), (f(0.5), f(10.0)), (f(12.0), f(3.0))] {
+            let Ok(d) = FisherF::new(m, n) else { continue };
+            let (mut ra, mut rb) = (rng0.clone(), rng0.clone());
+            let got = guarded(|| d.sample(&mut ra));
+            let refv = guarded(|| { let a: F = ChiSquared::new(m).unwrap().sample(&mut rb); let b2: F = ChiSquared::new(n).unwrap().sample(&mut rb); (a / m) / (b2 / n) });
+            push("FisherF", vec![m, n], got, ra.words(), refv, rb.words(), &tag, out);
+        }
+        // Pert(min, max, mode, shape) = min + (max - min) * Beta(1 + shape (mode-min)/range, 1 + shape (max-mode)/range)
+        for (mn, mx, md, sh) in [(f(0.0), f(1.0), f(0.5), f(4.0)), (f(-2.0), f(6.0), f(0.0), f(4.0)), (f(1.0), f(3.0), f(3.0), f(2.0)), (f(0.0), f(10.0), f(1.0), f(0.0)), (f(-1.0), f(1.0), f(0.25), f(10.0))] {
+            let Ok(d) = Pert::new(mn, mx).with_shape(sh).with_mode(md) else { continue };
+            let (mut ra, mut rb) = (rng0.clone(), rng0.clone());
+            let got = guarded(|| d.sample(&mut ra));
+            let range = mx - mn;
+            let refv = guarded(|| { let bb: F = Beta::new(F::one() + sh * (md - mn) / range, F::one() + sh * (mx - md) / range).unwrap().sample(&mut rb); mn + range * bb });
+            push("Pert", vec![mn, mx, md, sh], got, ra.words(), refv, rb.words(), &tag, out);
+        }
+        // Exp(lambda) = Exp1 / lambda
+        for l in [f(1.0), f(0.37), f(250.0), f(1e-3)] {
+            let Ok(d) = Exp::new(l) else { continue };
+            let (mut ra, mut rb) = (rng0.clone(), rng0.clone());
+            let got = guarded(|| d.sample(&mut ra));
+            let refv = guarded(|| { let e: F = Exp1.sample(&mut rb); e / l });
+            push("Exp", vec![l], got, ra.words(), refv, rb.words(), &tag, out);
+        }
+        // Gamma(1, theta) = Exp(1/theta);  Gamma(k < 1, theta) = Gamma(k + 1, theta) * U^(1/k) (U drawn first)
+        for (k, th) in [(f(1.0), f(2.0)), (f(1.0), f(0.125)), (f(0.5), f(1.0)), (f(0.25), f(3.0)), (f(0.9), f(0.5))] {
+            let Ok(d) = Gamma::new(k, th) else { continue };
+            let (mut ra, mut rb) = (rng0.clone(), rng0.clone());
+            let got = guarded(|| d.sample(&mut ra));
+            let refv = if k == F::one() { guarded(|| Exp::new(F::one() / th).unwrap().sample(&mut rb)) }
+                       else { guarded(|| { let u: F = Open01.sample(&mut rb); let g: F = Gamma::new(k + F::one(), th).unwrap().sample(&mut rb); g * u.powf(F::one() / k) }) };
+            push(if k == F::one() { "Gamma(1)" } else { "Gamma(<1)" }, vec![k, th], got, ra.words(), refv, rb.words(), &tag, out);
+        }
+        // Normal(0, 1) = StandardNormal
+        { let d = Normal::new(F::zero(), F::one()).unwrap(); let (mut ra, mut rb) = (rng0.clone(), rng0.clone());
+          let got = guarded(|| d.sample(&mut ra)); let refv = guarded(|| { let n: F = StandardNormal.sample(&mut rb); n });
+          push("Normal(0,1)", vec![], got, ra.words(), refv, rb.words(), &tag, out); }
+    }
+}
+
 pub fn drive(args: &[String]) -> i32 {
     let seed = arg_u64(args, "--seed", 1);
     let nrand = arg_u64(args, "--random", 40) as usize;
     let which = arg_val(args, "--prop").unwrap_or("C07".into());
     let outp = arg_val(args, "--out").unwrap();
     let mut out = vec![];
-    if which == "C07" { c07::<f32>(seed, nrand, &mut out); c07::<f64>(seed + 1, nrand, &mut out); }
+    if which == "C01" { c01::<f32>(seed, nrand, &mut out); c01::<f64>(seed + 1, nrand, &mut out); }
+    else if which == "C07" { c07::<f32>(seed, nrand, &mut out); c07::<f64>(seed + 1, nrand, &mut out); }
     else { c11::<f32>(seed, nrand, &mut out); c11::<f64>(seed + 1, nrand, &mut out); }
     let mut f = std::io::BufWriter::new(std::fs::File::create(&outp).unwrap());
     for l in &out { writeln!(f, "{}", l).unwrap(); }
